@@ -41,8 +41,10 @@ pub enum Shape {
     AuthEmpty,
     AuthCreate,
     AuthWithBlob,
+    /// two authorization tuples, the second with an unrecoverable signer: both are charged
+    AuthTwoOneUnrecoverable,
 }
-pub const SHAPES: [Shape; 18] = [
+pub const SHAPES: [Shape; 19] = [
     Shape::Call,
     Shape::CallData40,
     Shape::Create,
@@ -61,6 +63,7 @@ pub const SHAPES: [Shape; 18] = [
     Shape::AuthEmpty,
     Shape::AuthCreate,
     Shape::AuthWithBlob,
+    Shape::AuthTwoOneUnrecoverable,
 ];
 #[derive(Clone, Copy, Debug, PartialEq, Eq, Hash, Serialize, Deserialize)]
 pub enum GasSel {
@@ -194,6 +197,11 @@ pub fn build(c: &Case02) -> (TxCase, bool, Vec<String>) {
             t.tx.to = None;
             t.tx.data = Bytes::from(vec![0x00u8]);
             t.tx.auth_list = Some(one_auth.clone());
+        }
+        Shape::AuthTwoOneUnrecoverable => {
+            let mut l = one_auth.clone();
+            l.push(AuthSpec { chain_id: 1, address: BOK_ADDR, nonce: 0, authority: None });
+            t.tx.auth_list = Some(l);
         }
         Shape::AuthWithBlob => {
             t.tx.auth_list = Some(one_auth.clone());
@@ -674,7 +682,7 @@ pub fn run(ctx: &Ctx) -> i32 {
     acc.bump("no_effect_histories", b.evaluations);
     acc.merge(b);
     let meta = Meta {
-        rule: format!("(a) full product: 18 transaction shapes (call, calldata with floor > intrinsic, create, init code at / above the limit, access list, 8 blob shapes, 4 authorization-list shapes) x chain id {{none, right, wrong}} x 7 (sender nonce, tx nonce) relations incl. 2^64-1 x gas limit {{intrinsic-1, intrinsic, floor-1, floor, block limit, block limit+1}} x (base fee, max fee, priority fee) in {{0,1,2}}^2 x {{none,0,1,2}} x value {{0,1}} x sender balance {{cost-1, cost, cost+1}} x sender code {{none, code, designator}} on {} specs; (b) every history of <= {depth} transactions from 3 accepted and 5 rejected kinds plus preverify_transaction on one Evm, compared with the history without the rejected ones; distinct = distinct (spec, shape, chain, nonce, gas, verdict, code, balance)", specs.len()),
+        rule: format!("(a) full product: 19 transaction shapes (call, calldata with floor > intrinsic, create, init code at / above the limit, access list, 8 blob shapes, 4 authorization-list shapes) x chain id {{none, right, wrong}} x 7 (sender nonce, tx nonce) relations incl. 2^64-1 x gas limit {{intrinsic-1, intrinsic, floor-1, floor, block limit, block limit+1}} x (base fee, max fee, priority fee) in {{0,1,2}}^2 x {{none,0,1,2}} x value {{0,1}} x sender balance {{cost-1, cost, cost+1}} x sender code {{none, code, designator}} on {} specs; (b) every history of <= {depth} transactions from 3 accepted and 5 rejected kinds plus preverify_transaction on one Evm, compared with the history without the rejected ones; distinct = distinct (spec, shape, chain, nonce, gas, verdict, code, balance)", specs.len()),
         assumptions: vec![
             "oracle = validity predicate transcribed from EIP-155, 2, 2028, 2681, 2718/2930, 1559, 3607, 3860, 4844, 7623, 7702; only accept / reject is compared".into(),
             "optional fields left unset (nonce, chain id) mean 'rule not applicable'; EIP-3607 is applied on every fork; fields of a later transaction type used before its fork make the transaction invalid".into(),
